@@ -159,6 +159,47 @@ claim("C14", "exploration",
       "seeded order search over elaboration, step invariant on the name space", "DESIGN.md 4 C14")
 
 
+claim("C03", "translation_validation",
+      "Every design (generated 'translatable' DesignSpecs covering the constructs the translation documentation lists; "
+      "a corpus of real RTL from pymtl3.stdlib and the examples incl. ProcRTL; the repository's ~250 translator "
+      "test-case DUTs; tiny probes of known findings) is translated by the real VerilogTranslationPass with its file "
+      "I/O bound to an in-memory directory; the emitted text must parse and elaborate, have exactly one driver per "
+      "variable bit, no blocking assignment in always_ff, and a port list equal to the one derived from the PyMTL port "
+      "types; it is then executed by svsim next to the PyMTL simulation of a second instance for 8..60 cycles of seeded "
+      "inputs with glitches and mid-run resets under two seeded orders of svsim's active processes, comparing every "
+      "output port after every settle and every clock edge.",
+      "The SystemVerilog side is executed by /verif/dsim/svsim, our ~4000-line model of IEEE 1800 two-state semantics "
+      "(context-determined sizing, NBA region, seeded process order), NOT by Verilator: a stub whose faithfulness is "
+      "argued by 177 unit tests and by cycle-exact agreement with PyMTL on the corpus. Designs the translator rejects "
+      "with its own error type are outside the property and only counted. Known findings F5 F7 F17 F19 are listed in "
+      "known_findings.json.",
+      "translation validation by deterministic co-simulation with a seeded SV process scheduler", "DESIGN.md 4 C03, 3.4")
+claim("C12", "translation_validation",
+      "As C03 with the real YosysTranslationPass: the flat port list (struct field p__f, array element p__i, "
+      "interface member ifc__m, first field most significant) is derived from the type shape of each PyMTL port without "
+      "calling translator code, must equal the emitted module's port list in names, widths and directions, each flat "
+      "input is driven with the corresponding slice of the PyMTL port's packed value and each flat output compared with "
+      "the corresponding slice, every cycle.",
+      "Same svsim stub as C03; svsim reads a signed index expression N'(integer) as unsigned here (strict IEEE 1800 "
+      "6.24.1 would make Encoder-style loops index out of range; recorded in DESIGN.md as unconfirmable offline). The "
+      "Yosys backend has several genuine defects with struct-typed signals (F13 F14 F15 F16 F18 in known_findings.json); "
+      "they are recognised from the shape of the emitted text, everything else is still reported.",
+      "translation validation by deterministic co-simulation with a seeded SV process scheduler", "DESIGN.md 4 C12")
+claim("C13", "exploration",
+      "Batches of designs (generated DesignSpecs, parameterised template classes at colliding int/Bits/type/list/string "
+      "parameter values incl. lists long enough to trigger name hashing, the same class+parameters at several "
+      "positions, stdlib corpus, repository test-case DUTs, probes) are translated by both backends in three fresh "
+      "interpreters with different PYTHONHASHSEED values, different seeded object-hash streams and ASLR on. The texts "
+      "must be byte-identical; every module must be defined once and every instantiated module defined, identifiers "
+      "legal and unique (svsim parser); and for every component instance a fresh copy translated alone must yield, "
+      "under its module name, the body the combined translation emitted under that name (block labels and "
+      "lambda-derived identifiers normalised), otherwise two instances alias different hardware.",
+      "Interpreter-level nondeterminism (hash seed, ASLR) is the explored fault; all interpreters share one working "
+      "directory because emitted comments contain source paths. Known findings F7 F22 F23.",
+      "seeded multi-process search over hash-seed/ASLR nondeterminism + history check over the emitted artefacts",
+      "DESIGN.md 4 C13")
+
+
 def main():
   props = [json.loads(l)["id"] for l in open(os.path.join(VERIF, "properties.jsonl"))]
   checks = []
